@@ -10,18 +10,24 @@
                  published table and the same listing as the real detector run on the real messages.
      CLc ms    : detector inputs decoded from the real messages (text formats: the converters are not
                  modelled); detector model vs implementation as above.
+     CCtrl fn status be p : the parsers of control-message bodies (src/dlt/control_msgs.rs) called directly on
+                 the body p; model Crash/ControlMsgs.v vs the real function: parsed structure (or None) and
+                 panic / no panic.  fn: 0 log info, 1 sw version, 2 unregister context, 3 connection info,
+                 4 timezone.
      CSearch n : search-only case of n input bytes; the models say nothing, the observation only records
                  whether the worker finished the chain (the oracle lives on the Rust side). *)
 From Coq Require Import List NArith Bool.
 From AdltV Require Import Base.Obs Base.Res Base.MachInt.
 From AdltV Require Dlt.Frame Dlt.Iter.
 From AdltV Require Import Lifecycle.Model Exec.Lifecycle.
+From AdltV Require Crash.ControlMsgs.
 Import ListNotations.
 Open Scope N_scope.
 
 Inductive case_C03 : Type :=
 | CBytes (bs : list N)
 | CLc (ms : list mspec)
+| CCtrl (fn status : N) (be : bool) (p : list N)
 | CSearch (n : N).
 
 (* DltMessage -> what the detector looks at: ECU (as big-endian u32), reception time, timestamp_us() =
@@ -45,6 +51,28 @@ Definition lc_obs (n : N) (ms : list mspec) : otree :=
   let t' := sort_by_id t in
   T [L 0; L n; o_deliv o; T (map o_row t'); T [L 0; T (map (fun x => L (l_id x)) (listing (map snd t')))]].
 
+(* a decoded string as the harness can observe it: WINDOWS-1252 maps one byte to one char, bytes < 0x80 to
+   themselves, all others to non-ASCII chars (rendered 256); RE_NEW_LINE turns \t \n \r into a blank *)
+Definition chr (b : N) : N := if (b =? 9) || (b =? 10) || (b =? 13) then 32 else if b <? 128 then b else 256.
+Definition o_str (d : list N) : otree := T (map (fun b => L (chr b)) d).
+Definition o_id (d : list N) : otree := T (map L d).
+Definition o_ctx (c : Crash.ControlMsgs.ctx) : otree :=
+  T [o_id (Crash.ControlMsgs.c_id c); oopt L (Crash.ControlMsgs.c_ll c); oopt L (Crash.ControlMsgs.c_ts c);
+     oopt o_str (Crash.ControlMsgs.c_desc c)].
+Definition o_app (a : Crash.ControlMsgs.app) : otree :=
+  T [o_id (Crash.ControlMsgs.a_id a); T (map o_ctx (Crash.ControlMsgs.a_ctxs a)); oopt o_str (Crash.ControlMsgs.a_desc a)].
+Definition o_res {A} (f : A -> otree) (r : res A) : otree :=
+  match r with Ok a => T [L 0; f a] | Panic _ => T [L 1] | OutOfFuel => T [L 2] end.
+Definition run_ctrl (fn status : N) (be : bool) (p : list N) : otree :=
+  match fn with
+  | 0 => o_res (fun apps => T (map o_app apps)) (Crash.ControlMsgs.parse_log_info status be p)
+  | 1 => o_res (oopt o_str) (Crash.ControlMsgs.parse_sw_version be p)
+  | 2 => o_res (oopt (fun x : list N * list N * list N => T [o_id (fst (fst x)); o_id (snd (fst x)); o_id (snd x)]))
+               (Crash.ControlMsgs.parse_unregister_context p)
+  | 3 => o_res (oopt (fun x : N * list N => T [L (fst x); o_id (snd x)])) (Crash.ControlMsgs.parse_connection_info p)
+  | _ => o_res (oopt (fun x : N * bool => T [L (fst x); ob (snd x)])) (Crash.ControlMsgs.parse_timezone be p)
+  end.
+
 Definition run_C03 (c : case_C03) : otree :=
   match c with
   | CBytes bs =>
@@ -54,6 +82,7 @@ Definition run_C03 (c : case_C03) : otree :=
       | OutOfFuel => T [L 2]
       end
   | CLc ms => lc_obs (N.of_nat (length ms)) ms
+  | CCtrl fn status be p => run_ctrl fn status be p
   | CSearch _ => T [L 0]
   end.
 
